@@ -102,6 +102,13 @@ pub struct RawAct {
     space_after: bool,
 }
 
+impl RawAct {
+    #[allow(clippy::too_many_arguments)]
+    pub fn new(op: usize, deferred: bool, wrap: bool, e1: String, e2: String, member: String, types: Vec<String>, with_types: bool, space_before: bool, space_after: bool) -> RawAct {
+        RawAct { op, deferred, wrap, e1, e2, member, types, with_types, space_before, space_after }
+    }
+}
+
 fn raw_act() -> impl Strategy<Value = RawAct> {
     (
         0usize..23,
